@@ -488,3 +488,64 @@ Proof.
     change (f_label (en_fd dup)) with (en_label dup). apply in_map. exact Hin. }
   destruct (rget (f_label (en_fd dup)) (rev (map en_item_txt (known_entries tes)))); [reflexivity|contradiction].
 Qed.
+
+(* ------------------------------------------------------------------ the result depends on the entries' VALUES only (C06 nesting) *)
+Lemma entries_same_items : forall a b : list entry,
+  map en_fd a = map en_fd b -> map en_val a = map en_val b ->
+  map en_item_idx a = map en_item_idx b /\ map en_item_txt a = map en_item_txt b /\
+  map en_label a = map en_label b /\ blen a = blen b.
+Proof.
+  induction a as [|x a IH]; intros [|y b] Hf Hv; try discriminate.
+  - repeat split.
+  - cbn [map] in *. injection Hf as Hf1 Hf2. injection Hv as Hv1 Hv2.
+    destruct (IH b Hf2 Hv2) as [I1 [I2 [I3 I4]]].
+    unfold en_item_idx, en_item_txt, en_label in *. rewrite Hf1, Hv1, I1, I2, I3.
+    repeat split. rewrite !blen_cons. lia.
+Qed.
+
+(* two integer-keyed maps whose entries carry the same members with the same decoded values - however
+   differently each value is ENCODED (e.g. a nested dictionary with and without unknown members) - decode
+   to the same record *)
+Theorem dec_indexed_congruence : forall e k name s d fs entries entries' rest rest',
+  lookup e name = Some (DStruct true s d fs) ->
+  Forall (idx_entry_ok (dec e k) fs) entries -> Forall (idx_entry_ok (dec e k) fs) entries' ->
+  map en_fd entries = map en_fd entries' -> map en_val entries = map en_val entries' ->
+  NoDup (map en_label entries) ->
+  (forall fd, In fd fs -> f_opt fd = false -> In (f_label fd) (map en_label entries)) ->
+  blen entries < 4294967296 ->
+  exists v,
+    dec e (S k) (TNamed name) (put_head 5 (blen entries) ++ List.concat (map enc_idx_entry entries) ++ rest) = Ok (v, rest) /\
+    dec e (S k) (TNamed name) (put_head 5 (blen entries') ++ List.concat (map enc_idx_entry entries') ++ rest') = Ok (v, rest').
+Proof.
+  intros e k name s d fs entries entries' rest rest' Hl Hok Hok' Hf Hv Hnd Hreq Hn.
+  destruct (entries_same_items entries entries' Hf Hv) as [I1 [_ [I3 I4]]].
+  eexists. split.
+  - apply (dec_indexed_struct e k name s d fs entries rest Hl Hok Hnd Hreq Hn).
+  - rewrite (dec_indexed_struct e k name s d fs entries' rest' Hl Hok'); [| | |].
+    + unfold sent_value. rewrite I1. reflexivity.
+    + rewrite <- I3. exact Hnd.
+    + intros fd Hin Ho. rewrite <- I3. apply Hreq; assumption.
+    + rewrite <- I4. exact Hn.
+Qed.
+
+Theorem dec_text_congruence : forall e k name s d fs tes tes' rest rest',
+  lookup e name = Some (DStruct false s d fs) ->
+  Forall (txt_entry_ok (dec e k) fs) tes -> Forall (txt_entry_ok (dec e k) fs) tes' ->
+  map en_fd (known_entries tes) = map en_fd (known_entries tes') ->
+  map en_val (known_entries tes) = map en_val (known_entries tes') ->
+  NoDup (map en_label (known_entries tes)) ->
+  (forall fd, In fd fs -> f_opt fd = false -> In (f_label fd) (map en_label (known_entries tes))) ->
+  blen tes < 4294967296 -> blen tes' < 4294967296 ->
+  exists v,
+    dec e (S k) (TNamed name) (put_head 5 (blen tes) ++ List.concat (map enc_txt_entry tes) ++ rest) = Ok (v, rest) /\
+    dec e (S k) (TNamed name) (put_head 5 (blen tes') ++ List.concat (map enc_txt_entry tes') ++ rest') = Ok (v, rest').
+Proof.
+  intros e k name s d fs tes tes' rest rest' Hl Hok Hok' Hf Hv Hnd Hreq Hn Hn'.
+  destruct (entries_same_items _ _ Hf Hv) as [_ [I2 [I3 _]]].
+  eexists. split.
+  - apply (dec_text_struct e k name s d fs tes rest Hl Hok Hnd Hreq Hn).
+  - rewrite (dec_text_struct e k name s d fs tes' rest' Hl Hok'); [| | |exact Hn'].
+    + unfold txt_record. rewrite I2. reflexivity.
+    + rewrite <- I3. exact Hnd.
+    + intros fd Hin Ho. rewrite <- I3. apply Hreq; assumption.
+Qed.
